@@ -137,6 +137,11 @@ func (g *srcGen) structBody(generic bool) string {
 		case k == 3 && !embedded["lower"]:
 			embedded["lower"] = true
 			fmt.Fprintf(&b, "\tlower%s\n", g.tag(false, &next))
+		case k == 6 && !generic && !embedded["box"] && g.r.IntN(2) == 0:
+			// embedded instantiations of generic types, with package-qualified type arguments: the
+			// field's name is the generic type's, whatever stands between the brackets
+			embedded["box"] = true
+			fmt.Fprintf(&b, "\t%s%s\n", []string{"box[time.Time]", "*pair[string, time.Duration]", "Box[time.Time]", "box[int]", "*Box[[]time.Month]"}[g.r.IntN(5)], g.tag(false, &next))
 		case k == 4:
 			// several names, one tag
 			n2 := fmt.Sprintf("%s%dx", []string{"M", "n", "Ẩ", "Ｍ"}[g.r.IntN(4)], i)
@@ -178,6 +183,7 @@ func c20Source(r *rand.Rand) string {
 	b.WriteString("// Package p is generated for the plenctag check.\npackage p\n\nimport \"time\"\n\nvar _ time.Time\n\n")
 	b.WriteString("// Inner is embedded in other structs.\ntype Inner struct {\n\tIA int\n\tib string\n}\n\n// Ptr is embedded by pointer.\ntype Ptr struct{ PA int }\n\ntype lower struct{ la int }\n\n")
 	b.WriteString("// Box is generic.\ntype Box[P any] struct {\n\tV    P\n\tnext *Box[P]\n}\n\n")
+	b.WriteString("type box[P any] struct{ v P }\n\ntype pair[A, B any] struct {\n\ta A\n\tb B\n}\n\n")
 	nt := 1 + r.IntN(4)
 	for i := 0; i < nt; i++ {
 		if r.IntN(3) == 0 {
